@@ -14,6 +14,7 @@ What the library owns around SciPy's ODE/NNLS solvers and its own radial solver 
                              - per atom the SAME (coefficients, exponents, centre) are used for the subtracted density and the added
                                potential (normalized Gaussians), the fit's (coefficients, exponents, centres) for V_fit;
                              - argument validation;
+  interpolate_laplacian    (two atoms) sum over the atoms of sum_rows [S'' + 2/r S' - l(l+1)/r^2 S] Y_row with that atom's splines, coordinates, cut-off;
   _interpolate_molgrid_helper   (two atoms) atom a's solver gets molgrid[a] and the segment of f x aim-weights delimited by the index
                            table; the result is the sum of the per-atom callables; an AtomGrid is wrapped with unit weights; f is not written.
 """
@@ -399,6 +400,172 @@ def molgrid_helper(chk):
     chk.add("_interpolate_molgrid_helper/post/an-atomic-grid-is-wrapped-as-a-one-atom-molecular-grid-with-unit-weights", [NP >= 1], goal, func=fq, meta={"replay": rep})
 
 
+def laplacian_composition(chk):
+    """interpolate_laplacian on a two-atom molecular grid: the returned callable is the sum over the atoms of
+        sum_rows [ S''_row(r) + (2/r) S'_row(r) - l(l+1)/r^2 S_row(r) ] Y_row(theta, phi)
+    with S_row the radial-component splines of THAT atom's segment of f x aim-weights on THAT atom's grid (closures bound per atom),
+    (r, theta, phi) that atom's spherical coordinates of the evaluation point, r raised to the cut-off, harmonics up to l_max // 2 and
+    l the degree of the row (rows l^2 .. (l+1)^2 - 1).  Splines, harmonics and the coordinate conversion enter by contract."""
+    eng = chk.eng
+    fq = f"{MODP}.interpolate_laplacian"
+    N0, N1 = z3.Ints("N0 N1")
+    F = z3.Function("f_value", IS, RS)
+    AIMW = z3.Function("aim_weight", IS, RS)
+    SPL = z3.Function("radial_spline", IS, IS, IS, RS, RS)        # (atom, row, derivative order, r)
+    SPHC = z3.Function("spherical_coordinate", IS, IS, IS, RS)    # (atom, evaluation point, component r/theta/phi)
+    YH = z3.Function("harmonic_row", IS, IS, IS, RS)              # (atom, row, evaluation point)
+    LH = z3.Int("l_half")
+    LMAXV = z3.Int("l_max")
+    l0, k0, t0 = z3.Ints("l0 k0 t0")
+    CUT = z3.Real("cut_off")
+    L = (LH + 1) * (LH + 1)
+    rep = {"what": "laplacian", "shared": True}
+    rec = {"spl": [], "harm": [], "sph": []}
+
+    def thunk(eng_):
+        for v in rec.values():
+            del v[:]
+        eng_.assume(z3.And(N0 >= 1, N1 >= 1, NE >= 1, j0 >= 0, j0 < NE, t0 >= 0, LH >= 0, LMAXV >= 0, 2 * LH <= LMAXV, LMAXV <= 2 * LH + 1,
+                           l0 >= 0, l0 <= LH, k0 >= 0, k0 <= 2 * l0, CUT > 0))
+        total = N0 + N1
+        ats = []
+        for a in range(2):
+            o = I.Obj(eng_.get_class("grid.atomgrid", "AtomGrid"))
+            o.fields["_atom_index"] = a
+            ats.append(o)
+        mg = I.Obj(eng_.get_class("grid.molgrid", "MolGrid"))
+        offs = [z3.IntVal(0), N0, total]
+        mg.fields.update(_indices=I.Arr((3,), lambda j: M.select_const(j, [lambda v=v: v for v in offs]), "int"),
+                         _atcoords=I.Arr((2, 3), lambda a, c: z3.Function("centre", IS, IS, RS)(T.zi(a), T.zi(c)), "real"),
+                         _aim_weights=I.Arr((total,), lambda j: AIMW(T.zi(j)), "real"), _atgrids=ats, _kdtree=None,
+                         _points=I.Arr((total, 3), lambda j, c: GP(T.zi(j), T.zi(c)), "real"), _weights=I.Arr((total,), lambda j: z3.RealVal(1), "real"))
+        fv = I.Arr((total,), lambda j: F(T.zi(j)), "real")
+        before = fv.fn
+        cc = eng_.callee_contracts
+
+        def atom_of(obj):
+            return obj.fields.get("_atom_index")
+
+        def splines_contract(e, f, args, kwargs):
+            a = atom_of(args[0])
+            rec["spl"].append((a, args[1]))
+
+            def mk(row):
+                def spline(e2, pts, nu=0):
+                    pf = pts.fn
+                    return I.Arr((pts.shape[0],), lambda j, row=row, nu=nu: SPL(a, T.zi(row), T.zi(nu), T.zr(pf(j))), "real")
+                return I.Model("spline", spline)
+            return LZ.SymList(L, lambda row: mk(row), scalar=False)
+
+        def sph_contract(e, f, args, kwargs):
+            a = atom_of(args[0])
+            rec["sph"].append((a, args[1]))
+            comps = tuple(I.Arr((NE,), lambda j, c=c: SPHC(a, T.zi(j), c), "real") for c in range(3))
+            # the code unpacks the transposed result into three rows; they are independent arrays for every use the real code makes of them
+            return I.Opaque("spherical-coordinates", T=comps)
+
+        def harm_contract(e, f, args, kwargs):
+            n = len(rec["harm"])
+            rec["harm"].append(list(args))
+            lq = T.zi(args[0])
+            return I.Arr(((lq + 1) * (lq + 1), NE), lambda row, j, n=n: YH(n, T.zi(row), T.zi(j)), "real")
+        cc["grid.atomgrid.AtomGrid.l_max"] = lambda e, f, args, kwargs: LMAXV
+        cc["grid.atomgrid.AtomGrid.radial_component_splines"] = splines_contract
+        cc["grid.atomgrid.AtomGrid.convert_cartesian_to_spherical"] = sph_contract
+        cc["grid.utils.generate_real_spherical_harmonics"] = harm_contract
+        eng_.generic_segments = [(l0, k0)]
+        eng_.ghost_offsets = [lambda s_: T.zi(s_) * T.zi(s_), lambda s_: T.zi(s_) * T.zi(s_)]       # degree l starts at row l^2 (one table per atom)
+        eng_.generic_indices = [j0]
+        try:
+            res = eng_.call(eng_.get_function(MODP, "interpolate_laplacian"), [mg, fv])
+            ev = I.Arr((NE, 3), lambda j, c: EP(T.zi(j), T.zi(c)), "real")
+            out = eng_.call(res, [ev, CUT])
+            return dict(out=out, rec={k: list(v) for k, v in rec.items()}, ev=ev, untouched=fv.fn is before)
+        finally:
+            for k in ("grid.atomgrid.AtomGrid.l_max", "grid.atomgrid.AtomGrid.radial_component_splines", "grid.atomgrid.AtomGrid.convert_cartesian_to_spherical",
+                      "grid.utils.generate_real_spherical_harmonics"):
+                cc.pop(k, None)
+            eng_.generic_segments = []
+            eng_.ghost_offsets = []
+            eng_.generic_indices = []
+    outs = chk.explore("interpolate_laplacian/two-atoms", thunk, func=fq)
+    rets = [o for o in outs if o.kind == "return"]
+    chk.add("interpolate_laplacian/post/returns-on-every-path", [], z3.BoolVal(bool(rets) and len(rets) == len(outs)), func=fq,
+            meta={"replay": rep, "paths": str([(o.kind, o.exc, o.note) for o in outs][:6])})
+    DEG = z3.Function("l_times_l_plus_1_of_row", IS, IS)          # definition: DEG(l^2 + k) = l (l + 1) for 0 <= k <= 2 l
+    deg_def = DEG(l0 * l0 + k0) == l0 * (l0 + 1)
+    offs = [z3.IntVal(0), N0]
+    lens = [N0, N1]
+    for oi, o in enumerate(rets):
+        v = o.value
+        sfx = f"@{oi}"
+        hy = list(o.pc)
+        asm = list(o.assumptions)
+        r = v["rec"]
+        chk.add_from_path(f"interpolate_laplacian/path{oi}", o, func=fq, meta={"replay": rep})
+        ok = [a for a, _ in r["spl"]] == [0, 1] and [a for a, _ in r["sph"]] == [0, 1] and len(r["harm"]) == 2 and \
+            all(isinstance(x[1], I.Arr) and x[1].ndim == 1 for x in r["spl"])
+        chk.add(f"interpolate_laplacian/post/each-atom-once-on-its-own-grid{sfx}", [], z3.BoolVal(bool(ok)), func=fq, meta={"replay": rep})
+        if not ok:
+            continue
+        goals = []
+        for a in range(2):
+            vals = r["spl"][a][1]
+            goals.append(z3.And(T.zi(vals.shape[0]) == lens[a], z3.Implies(t0 < lens[a], T.zr(vals.fn(t0)) == F(offs[a] + t0) * AIMW(offs[a] + t0))))
+        chk.add(f"interpolate_laplacian/post/splines-of-each-atoms-segment-of-f-times-the-aim-weights{sfx}", hy, z3.And(*goals), func=fq, meta={"replay": rep}, assumptions=asm)
+        chk.add(f"interpolate_laplacian/post/spherical-coordinates-of-the-evaluation-points-about-each-atom{sfx}", hy,
+                z3.And(*[framework.same_array(r["sph"][a][1], v["ev"], f"qe{a}") for a in range(2)]), func=fq, meta={"replay": rep}, assumptions=asm)
+        hg = []
+        for a in range(2):
+            lq, th, ph = r["harm"][a][0], r["harm"][a][1], r["harm"][a][2]
+            hg.append(z3.And(T.zi(lq) == LH, T.zr(th.fn(j0)) == SPHC(a, j0, 1), T.zr(ph.fn(j0)) == SPHC(a, j0, 2)))
+        chk.add(f"interpolate_laplacian/post/harmonics-up-to-half-the-largest-degree-at-each-atoms-angles{sfx}", hy, z3.And(*hg), func=fq, meta={"replay": rep}, assumptions=asm)
+        val = T.zr(v["out"].fn(j0))
+        rc = [z3.If(SPHC(a, j0, 0) < CUT, CUT, SPHC(a, j0, 0)) for a in range(2)]
+        eqs, want, complete = [], z3.RealVal(0), True
+        sites = framework.find_sites(val)
+        by_key = {}
+        for sapp in sites:
+            site = framework.site_of(sapp)
+            oidx = [sapp.arg(k) for k in range(sapp.num_args())]
+            tt = z3.Int("tt_probe")
+            apps = [u for u in T.subterms(T.zr(site.term(oidx, tt))).values() if z3.is_app(u) and u.decl().name() == "radial_spline"]
+            keys = {(T.conc(u.arg(0)), T.conc(u.arg(2))) for u in apps}
+            if len(keys) != 1 or None in list(keys)[0]:
+                complete = False
+                continue
+            by_key.setdefault(list(keys)[0], []).append(sapp)
+        for a in range(2):
+            parts = {}
+            for nu in (0, 1, 2):
+                apps = by_key.get((a, nu), [])
+                if len(apps) != 1:
+                    complete = False
+                    continue
+                if nu == 0:
+                    g_ = (lambda a: (lambda t: SPL(a, T.zi(t), 0, rc[a]) * z3.ToReal(DEG(T.zi(t))) * YH(a, T.zi(t), j0)))(a)
+                else:
+                    g_ = (lambda a, nu: (lambda t: SPL(a, T.zi(t), nu, rc[a]) * YH(a, T.zi(t), j0)))(a, nu)
+                ps = framework.PrefixSum(f"laplacian_atom{a}_nu{nu}_{oi}", g_)
+                name = f"interpolate_laplacian/atom{a}/radial-derivative{nu}{sfx}"
+                tvar = z3.Int(f"t_{name.replace('/', '_')}")
+                # every row t of the table is row l^2 + k of exactly one degree l (0 <= k <= 2l): the generic segment stands for it
+                extra = [tvar == l0 * l0 + k0, deg_def] if nu == 0 else []
+                eqs.append(framework.match_sum(chk, name, apps[0], ps, 0, L - 1, hy + extra, func=fq, meta={"replay": rep}, assumptions=asm, toplevel=True))
+                parts[nu] = ps.range_sum(0, L - 1)
+            if len(parts) == 3:
+                want = want + (parts[2] + parts[1] * (2 / rc[a]) - parts[0] / (rc[a] * rc[a]))
+        chk.add(f"interpolate_laplacian/post/one-sum-per-atom-and-radial-derivative{sfx}", [], z3.BoolVal(bool(complete and len(sites) == 6)), func=fq, meta={"replay": rep})
+        if complete:
+            chk.add(f"interpolate_laplacian/post/sum-over-atoms-of-the-radial-laplacian-of-each-harmonic-component{sfx}", hy + eqs + [CUT > 0], val == want, func=fq,
+                    meta={"replay": rep}, assumptions=asm)
+        chk.add(f"interpolate_laplacian/post/one-value-per-evaluation-point{sfx}", hy, z3.And(z3.BoolVal(v["out"].ndim == 1), T.zi(v["out"].shape[0]) == NE), func=fq,
+                meta={"replay": rep}, assumptions=asm)
+        chk.add(f"interpolate_laplacian/frame/callers-values-are-not-written{sfx}", [], z3.BoolVal(bool(v["untouched"])), kind="frame", func=fq, meta={"replay": rep})
+    if rets:
+        chk.canary("interpolate_laplacian", list(rets[0].pc))
+
+
 def radial_ode_setup(chk):
     """_solve_poisson_bvp_atomgrid / _solve_poisson_ivp_atomgrid: which ODE is handed to the ODE layer for every (l, m), and how the solutions are
     recombined.  Nested loop contracts (degrees, orders); radial splines, the ODE layer, harmonics and the coordinate conversion by contract."""
@@ -610,6 +777,7 @@ def radial_ode_setup(chk):
 
 
 def build(chk):
+    laplacian_composition(chk)
     core_density(chk)
     robust_composition(chk)
     molgrid_helper(chk)
